@@ -283,6 +283,30 @@ def c12_extra(prop, tier, rng, result):
             cov['evaluations'] += 1
             budgets += 1
         recs.append((list(sess.lines), list(sess.outs)))
+    # one LARGE snapshot: every shard file receives flushed blocks long before the manifests are written, so the
+    # crash points between the manifests see non-empty, unterminated shard files (only the file-system steps of
+    # StoreToDisk itself are crash points here, not every item write)
+    sess.new_case()
+    sess.send('cfg cmp=plain mem=go writers=2')
+    nbig = 1500 if tier == 'quick' else 6000
+    for k in range(nbig):
+        sess.send('put %d %d 0' % (k % 2, k * 3 + 1))
+    sess.send('snap')
+    i = 0
+    while i < 200:
+        sess.send('open 1')
+        o = sess.send('crashload 1 conc=%d at=%d only=fs' % (rng.choice((1, 4)), i))
+        cov['evaluations'] += 1
+        if o == 'none':
+            break
+        crash_points += 1
+        i += 1
+    for b in (0, 100, 5000, 20000, 10 ** 9):
+        sess.send('open 1')
+        sess.send('storeload 1 conc=2 fsize=%d' % b)
+        cov['evaluations'] += 1
+        budgets += 1
+    recs.append((list(sess.lines), list(sess.outs)))
     sess.close()
     text = 'engine mvcc\n' + ''.join('case %d\n' % i + '\n'.join(c) + '\n' for i, (c, _) in enumerate(recs))
     rc, model, err = C.run_script(C.NVMODEL, text, 3000)
@@ -294,6 +318,8 @@ def c12_extra(prop, tier, rng, result):
             b = mo[j] if j < len(mo) else '<no model output>'
             if not C.line_match(a, b):
                 pre = [x for x in c[:j] if not x.startswith(('crashload', 'storeload', 'open'))]
+                if len(pre) > 400:
+                    pre = pre[:2] + ['# ... %d more put lines of the same pattern ...' % (len(pre) - 3)] + pre[-1:]
                 viol.append({'engine': 'mvcc', 'kind': 'c12', 'script': pre + [c[j - 1], l] if j else [l], 'diff': {'line': j, 'op': l, 'impl': a[:300], 'model': b[:300]}})
                 break
         else:
